@@ -134,6 +134,15 @@ class _NtMethod:
         return self.fn(interp, args, kwargs, node)
 
 
+
+_PLAIN_TYPES = (str, int, float, bool, bytes, list, tuple, dict, set, frozenset, range, slice, complex, type(None))
+
+
+def _plain(*vals) -> bool:
+    """All operands are plain Python values: what Python does with them is what the package does."""
+    return all(type(v) in _PLAIN_TYPES for v in vals)
+
+
 class GenResult(list):
     """Values a one-shot iterator still has to produce (generator functions and expressions, zip, map, filter, enumerate,
     reversed, itertools.*; evaluated eagerly).  Iterating it (Interp.iterate, next) consumes it, as in Python."""
@@ -977,6 +986,9 @@ class Interp:
                 return val
             return _PyBound(obj, attr, val)
         except AttributeError:
+            if obj is None or type(obj) in (str, int, float, bool, bytes, list, tuple, dict, set, frozenset, range, slice, complex):
+                # a plain Python value: the attribute is missing in the language itself, the program raises here
+                raise RaiseSignal('AttributeError', node, self.where(node), (f"'{type(obj).__name__}' object has no attribute '{attr}'",)) from None
             raise AnalysisError(f'attribute {attr} of {type(obj).__name__} at {self.where(node)}') from None
 
     def base_names(self, ci: ClassInfo) -> list[str]:
@@ -1269,6 +1281,8 @@ class Interp:
         try:
             return pyop(a, b)
         except Exception as ex:  # noqa: BLE001
+            if _plain(a, b) and isinstance(ex, TypeError | ValueError | ZeroDivisionError | OverflowError):
+                raise RaiseSignal(type(ex).__name__, node, self.where(node), (str(ex),)) from None  # the program's own error
             raise AnalysisError(f'concrete {opname} failed at {self.where(node)}: {ex}') from None
 
     def ex_UnaryOp(self, e, env, mi):
@@ -1360,6 +1374,8 @@ class Interp:
             return {'==': operator.eq, '!=': operator.ne, '<': operator.lt, '<=': operator.le,
                     '>': operator.gt, '>=': operator.ge}[sym](a, b)
         except TypeError as ex:
+            if _plain(a, b):
+                raise RaiseSignal('TypeError', node, self.where(node), (str(ex),)) from None  # the program's own error
             raise AnalysisError(f'concrete compare failed at {self.where(node)}: {ex}') from None
 
     def ex_IfExp(self, e, env, mi):
@@ -1442,6 +1458,8 @@ class Interp:
         except (KeyError, IndexError):
             raise RaiseSignal('KeyError' if isinstance(obj, dict) else 'IndexError', node, self.where(node), (key,)) from None
         except TypeError as ex:
+            if _plain(obj, key):
+                raise RaiseSignal('TypeError', node, self.where(node), (str(ex),)) from None  # the program's own error
             raise AnalysisError(f'subscript at {self.where(node)}: {ex}') from None
 
     def ex_Slice(self, e, env, mi):
